@@ -238,3 +238,86 @@ func (fc *FuncCtx) sinterpConst(call *ast.CallExpr, st *St) ([]Term, bool) {
 	}
 	return []Term{App(SString, "str.++", parts...)}, true
 }
+
+// smtStrLitValue decodes an SMT string literal produced by StrLit.
+func smtStrLitValue(s string) (string, bool) {
+	if len(s) < 2 || s[0] != '"' || s[len(s)-1] != '"' {
+		return "", false
+	}
+	body := s[1 : len(s)-1]
+	var b strings.Builder
+	for i := 0; i < len(body); i++ {
+		c := body[i]
+		if c == '"' {
+			if i+1 < len(body) && body[i+1] == '"' {
+				b.WriteByte('"')
+				i++
+				continue
+			}
+			return "", false
+		}
+		if c == '\\' && strings.HasPrefix(body[i:], "\\u{") {
+			j := strings.Index(body[i:], "}")
+			if j < 0 {
+				return "", false
+			}
+			var v int
+			fmt.Sscanf(body[i+3:i+j], "%x", &v)
+			b.WriteByte(byte(v))
+			i += j
+			continue
+		}
+		b.WriteByte(c)
+	}
+	return b.String(), true
+}
+
+// sprintfConst: fmt.Sprintf with a known format string over the assumed fragment.
+func (fc *FuncCtx) sprintfConst(format string, args []Term) Term {
+	fc.Assumed["fmt.Sprintf: %s of a string is the string, %d / %v / %f of a value is a fixed function of the value, %% is a percent sign, other text is copied (assumed fragment)"] = true
+	var parts []Term
+	lit := ""
+	ai := 0
+	flush := func() {
+		if lit != "" {
+			parts = append(parts, StrLit(lit))
+			lit = ""
+		}
+	}
+	for i := 0; i < len(format); i++ {
+		c := format[i]
+		if c != '%' {
+			lit += string(c)
+			continue
+		}
+		if i+1 >= len(format) {
+			lit += "%!(NOVERB)"
+			continue
+		}
+		i++
+		v := format[i]
+		if v == '%' {
+			lit += "%"
+			continue
+		}
+		if ai >= len(args) {
+			lit += "%!" + string(v) + "(MISSING)"
+			continue
+		}
+		a := args[ai]
+		ai++
+		flush()
+		parts = append(parts, fc.fmtVerb(v, a))
+	}
+	flush()
+	if len(parts) == 0 {
+		return StrLit("")
+	}
+	if len(parts) == 1 {
+		return parts[0]
+	}
+	return App(SString, "str.++", parts...)
+}
+
+// SMTStringValue decodes a string literal printed by a solver.
+func SMTStringValue(s string) (string, bool) { return smtStrLitValue(strings.TrimSpace(s)) }
